@@ -12,6 +12,8 @@
 vf_results R;
 vf_args A;
 void (*vf_cex_writer)(FILE *f);
+/* builds without mc/world.c (the real Linux port / embedded daemon) have no virtual clock: weak default */
+__attribute__((weak)) uint64_t vf_clock_origin = 1000000;
 int vf_suppress;
 const char *vf_cex_extra;      /* optional JSON fragment ("key":value) added to every counterexample file */
 uint64_t vf_violation_events;
